@@ -369,6 +369,8 @@ def gen_case(seed, tier, idx):
                         "ov": None if idx == 0 else 0, "bad": None}}
     if idx in (1, 2):
         return gen_collision(rnd, idx)
+    if idx in (4, 5):
+        return gen_collision_literal(rnd, idx)
     nk = len(KINDS)
     kind = KINDS[idx % nk]
     sub = "rand"
@@ -403,6 +405,39 @@ def gen_case(seed, tier, idx):
     else:
         cfg = gen_gpio(rnd, tier)
     return {"engine": "elab", "kind": kind, "sub": sub, "pred": int(well_typed(kind, cfg)), "cfg": cfg}
+
+
+def gen_collision_literal(rnd, idx):
+    """As gen_collision, plus fields / registers whose LITERAL names are what a renaming scheme would produce for
+    the colliding one (`<joined>_<k>`), before and after it: whatever name a colliding submodule is given must be
+    checked against every name, taken earlier or later."""
+    f = ["f", {"kind": "RW", "shape": {"t": "u", "w": 2}, "init": None}]
+    ks = [1, 2, 3, 4, 5] if rnd.random() < 0.7 else rnd.sample([1, 2, 3, 4], rnd.choice([2, 3]))
+    if idx == 4:
+        if rnd.random() < 0.5:
+            joined, pair = "a__b", [["a", ["d", [["b", f]]]], ["a__b", f]]
+        else:
+            joined, pair = "a__0", [["a", ["l", [f]]], ["a__0", f]]
+        lit = [[f"{joined}_{k}", f] for k in ks]
+        cut = rnd.randrange(len(lit) + 1)
+        if rnd.random() < 0.5:
+            pair = pair[::-1]
+        fields = lit[:cut] + pair + lit[cut:]
+        cfg = {"fields": ["d", fields], "access": "rw"}
+        cfg["paths"] = paths_of_register(cfg)
+        return {"engine": "elab", "kind": "register", "sub": "collide", "pred": int(cfg["paths"] is not None), "cfg": cfg}
+    reg = {"fields": f, "access": "rw"}
+    if rnd.random() < 0.5:
+        joined, pair = "a__0", [["add", "a__0", reg, None], ["cluster", "a", [["add", "0", reg, None]]]]
+    else:
+        joined, pair = "mux", [["add", "mux", reg, None]]
+    lit = [["add", f"{joined}_{k}", reg, None] for k in ks]
+    cut = rnd.randrange(len(lit) + 1)
+    if rnd.random() < 0.5:
+        pair = pair[::-1]
+    cfg = {"aw": 8, "dw": 8, "gran": 8, "bad": None, "ops": lit[:cut] + pair + lit[cut:]}
+    cfg["names"] = names_of_ops(cfg)
+    return {"engine": "elab", "kind": "csrbridge", "sub": "collide", "pred": int(cfg["names"] is not None), "cfg": cfg}
 
 
 def gen_collision(rnd, idx):
